@@ -4,7 +4,7 @@ CONFIG = {
     "areas": ["stateres", "topo"],
     "lean": ["VProps.C11"],
     "sources": ["VProps/C11.lean", "VModel/StateRes.lean"],
-    "theorems": [],
+    "theorems": ["V.C11.set_keysNodup", "V.C11.applyEvents_keysNodup", "V.C11.authAndApply_keysNodup"],
     "rule": "as C10; every resolve op is executed on 5 presentations (permuted sets, permuted events, permuted auth list with duplicated "
             "entries) and must give one result; result predicates (subset of inputs, agreed keys kept, equal sets returned, one event per key) "
             "are evaluated by the driver on the implementation's answer; topo ops: random subsets of a history in random presentation order, "
